@@ -4,6 +4,7 @@ package absnfs
 
 import (
 	"bytes"
+	"io"
 	"runtime"
 )
 
@@ -333,15 +334,50 @@ func VPH_C13_record_read() {
 	}
 	next := vpU32("next")
 	stream.u32(next)
-	src := bytes.NewReader(stream.Bytes())
+	// the transport hands the bytes over in pieces of its own choosing (an io.Reader may return
+	// fewer bytes than asked for): all at once, or at most 1, 3 (thorough: 1, 2, 3, 5) per Read
+	chunks := []int{0, 1, 3}
+	if vpTier() == 1 {
+		chunks = []int{0, 1, 2, 3, 5}
+	}
+	src := &vpChunkReader{b: stream.Bytes(), chunk: chunks[vpChoose("bytes-per-read", 0, len(chunks)-1)]}
+	if src.chunk > 0 {
+		vpReach("short-reads")
+	}
 	rm := NewRecordMarkingReader(src)
 	got, err := rm.ReadRecord()
 	vpAssert(err == nil, "read-ok")
 	vpAssert(len(got) == n, "length")
 	vpAssert(bytes.Equal(got, data), "reassembled")
-	vpAssert(src.Len() == 4, "stream-position")
+	vpAssert(len(src.b)-src.pos == 4, "stream-position")
 	vpObserve("n", n)
 	vpObserve("frags", nf)
+}
+
+// vpChunkReader: an io.Reader that returns at most chunk bytes per Read (0 = as many as fit).
+type vpChunkReader struct {
+	b     []byte
+	pos   int
+	chunk int
+}
+
+func (r *vpChunkReader) Read(p []byte) (int, error) {
+	if len(p) == 0 {
+		return 0, nil
+	}
+	if r.pos >= len(r.b) {
+		return 0, io.EOF
+	}
+	n := len(r.b) - r.pos
+	if n > len(p) {
+		n = len(p)
+	}
+	if r.chunk > 0 && n > r.chunk {
+		n = r.chunk
+	}
+	copy(p, r.b[r.pos:r.pos+n])
+	r.pos += n
+	return n, nil
 }
 
 // VPH_C13_record_write: writer (any maximum fragment size) then reader is the identity.
